@@ -290,6 +290,26 @@ class Dummy:
         self.line = line
 
 
+def _only_called_from(src, helper, allowed, depth=0):
+    """every call of the non-public function `helper` in this source text sits inside one of the `allowed` functions (or inside a helper
+    for which the same holds)"""
+    if depth > 3 or re.search(r'\bpub(?:\([a-z]+\))?\s+fn\s+%s\b' % re.escape(helper), src):
+        return False
+    sites = [m for m in re.finditer(r'(?<![\w.])%s\s*\(' % re.escape(helper), src) if not re.search(r'\bfn\s+$', src[max(0, m.start() - 12):m.start()])]
+    if not sites:
+        return False
+    for m in sites:
+        enc = None
+        for fm in re.finditer(r'\bfn\s+(\w+)', src[:m.start()]):
+            enc = fm.group(1)
+        if enc in allowed:
+            continue
+        if enc and enc != helper and _only_called_from(src, enc, allowed, depth + 1):
+            continue
+        return False
+    return True
+
+
 def entries_check(lib_raw=None):
     """every public parser entry (strict and incomplete alike) starts from the fresh state: it calls init() first"""
     if lib_raw is None:
@@ -322,6 +342,8 @@ def entries_check(lib_raw=None):
                     enc = fm.group(1)
                 if rel.endswith('sv-parser/src/lib.rs') and enc in ('parse_sv_pp', 'parse_lib_pp'):
                     continue
+                if rel.endswith('sv-parser/src/lib.rs') and enc and _only_called_from(src, enc, {'parse_sv_pp', 'parse_lib_pp'}):
+                    continue            # a private helper of the two strict/incomplete parsers (every call of it sits in them)
                 if crate == 'sv-parser-error' and enc is None:
                     continue            # the declaration of the variant itself
                 failures.append(fail(enc or '-', 'C15.parse-error-is-reported-by-the-strict-parsers-only', 'Error::Parse is constructed in %s (%s), outside parse_sv_pp / parse_lib_pp' % (enc or 'top level', rel),
@@ -1421,6 +1443,8 @@ def _accepts(e, b1, b2):
 
 def _lookahead(e, b):
     """look-ahead parser at a position whose next byte is b (None = end of input)"""
+    if e[0] == 'call' and e[1] == ('var', 'not'):
+        e = ('call', ('var', 'peek'), [e])       # `not` consumes nothing: it is its own look-ahead
     if e[0] == 'call' and e[1] == ('var', 'peek'):
         inner = e[2][0]
         if inner[0] == 'call' and inner[1] == ('var', 'not'):
